@@ -16,6 +16,7 @@ import ALV.Lemmas.C07Lagrange
 import ALV.Lemmas.C07Hash
 import ALV.Lemmas.C07Spec
 import ALV.Lemmas.C07LagrangePoly
+import ALV.Lemmas.C07Hist
 import ALV.Common.Audit
 
 set_option linter.unusedSectionVars false
@@ -399,6 +400,118 @@ theorem diff_eq_spec {p : MPoly K} (hp : WF p) : sortAsc (diff p) = sDiff p :=
   sortAsc_eq_of_toLaurent (wf_diff hp 1) (wf_canonOn _ _) (ascending_canonOn _ _)
     ((toLaurent_diff hp 1).trans (by rw [Function.iterate_one]; exact (toLaurent_sDiff p).symm))
 
+/-! ## 7. histories: Poly objects are mutable until hashed
+
+`Model/C07Hist.lean`: a heap of `Poly` instances (`_data`, "has `_hash`"), the caller's variables
+(`pool`), the caller's own containers given to `Poly(...)` (`srcs`); a history is any sequence of
+operations `HOp` (constructors, `+ - * ** /`, call / composition, `diff`, `integrate`, `copy`,
+`p[k] = c`, `p.zero = 0`, `hash`, `==`) on the objects obtained so far.  `act st op` decides a step
+from the CURRENT contents of its operands, `hstep` applies it, `hrun` runs a history. -/
+
+/-- **C07.8a** no zero coefficient is ever stored and keys stay distinct in EVERY object of the heap
+after EVERY history (in-place item assignment — also of zero —, the `zero` setter, failing steps, the
+results of every operator on objects that were mutated before), and every variable refers to an object. -/
+theorem hist_wf {objs : List (MPoly K)} (h : ∀ p ∈ objs, WF p) (srcs : List (List (Int × K)))
+    (ops : List (HOp K)) :
+    HWF (hrun (HState.init objs srcs) ops) ∧ PoolOK (hrun (HState.init objs srcs) ops) :=
+  ⟨hwf_hrun (hwf_init h srcs) ops, poolOK_hrun (poolOK_init objs srcs) ops⟩
+
+/-- one step from any well-formed state (so the invariant is inductive) -/
+theorem hist_step_wf {st : HState K} (hw : HWF st) (hp : PoolOK st) (op : HOp K) :
+    HWF (hstep st op) ∧ PoolOK (hstep st op) := ⟨hwf_hstep hw op, poolOK_hstep hp op⟩
+
+/-- consequence used by everything below: at every moment of every history the current contents of
+every variable are a well-formed Poly, so every theorem of sections 1–6 applies to the operands of
+the next step, whatever happened to them before. -/
+theorem hist_operands_wf {objs : List (MPoly K)} (h : ∀ p ∈ objs, WF p) (srcs : List (List (Int × K)))
+    (ops : List (HOp K)) {i : ℕ} {p : MPoly K} (hv : (hrun (HState.init objs srcs) ops).val i = some p) :
+    WF p := by
+  unfold HState.val at hv
+  cases ho : (hrun (HState.init objs srcs) ops).obj i with
+  | none => rw [ho] at hv; simp at hv
+  | some ao =>
+    obtain ⟨a, o⟩ := ao
+    rw [ho] at hv
+    simp only [Option.map_some, Option.some.injEq] at hv
+    subst hv
+    exact (hist_wf h srcs ops).1 _ (obj_mem ho).1
+
+/-- **C07.8b** `p[k] = c` is the point update of the coefficient function and keeps the invariant:
+afterwards `p[k]` is `c`, every other coefficient is what it was; assigning zero removes the term
+instead of storing it. -/
+theorem setitem_spec {p : MPoly K} (hp : WF p) (k : ℤ) (c : K) :
+    WF (setItem p k c) ∧ (∀ k', getD (setItem p k c) k' = if k' = k then c else getD p k') ∧
+      k ∉ keys (setItem p k 0) :=
+  ⟨ALV.C07.wf_setItem hp k c, getD_setItem hp k c, setItem_zero_not_mem hp k⟩
+
+/-- **C07.8c** a step is answered from the current contents of the variables only (no memory of earlier
+steps): two states whose variables denote the same contents answer every operation alike. -/
+theorem hist_step_depends_on_current_contents {st st' : HState K} (h : ∀ i, st.obj i = st'.obj i)
+    (hs : st.srcs = st'.srcs) (op : HOp K) : act st op = act st' op := act_congr h hs op
+
+/-- **C07.8d** results are NEW objects: an allocating step appends one variable, whose address is no
+earlier variable's address; the object holds the computed Poly, un-hashed; every existing object and
+every earlier variable is as before. -/
+theorem hist_result_fresh {st : HState K} (hp : PoolOK st) {op : HOp K} {p : MPoly K}
+    (h : act st op = .alloc p) :
+    (hstep st op).pool = st.pool ++ [st.heap.length] ∧ st.heap.length ∉ st.pool ∧
+      (hstep st op).heap[st.heap.length]? = some { data := p, hashed := false } ∧
+      ∀ a, a < st.heap.length → (hstep st op).heap[a]? = st.heap[a]? := alloc_fresh hp h
+
+/-- **C07.8e** the only operation that returns an existing object is `p ** n` with at least two terms
+and `n ≤ 1`, `n ≠ 0` (`reduce(operator.mul, [] + [self])` is `self`): every other result is new. -/
+theorem hist_alias_only_pow_self {st : HState K} {op : HOp K} {a : ℕ} (h : act st op = .alias a) :
+    ∃ i n fl o, op = .pow i n fl ∧ st.obj i = some (a, o) ∧ powIsSelf o.data n = true := act_alias h
+
+/-- **C07.8f** mutating a result does not change the operands (nor any other existing object), and
+mutating any earlier variable afterwards does not change the result. -/
+theorem hist_mutation_isolated {st : HState K} (hp : PoolOK st) {op : HOp K} {p : MPoly K}
+    (h : act st op = .alloc p) (k : ℤ) (c : K) :
+    (∀ a, a < st.heap.length →
+        (hstep (hstep st op) (.setitem st.pool.length k c)).heap[a]? = st.heap[a]?) ∧
+    (∀ i, i < st.pool.length →
+        (hstep (hstep st op) (.setitem i k c)).heap[st.heap.length]? = some { data := p, hashed := false }) :=
+  mutation_isolated hp h k c
+
+/-- **C07.8g** frame: a step changes no existing object except the target of `p[k] = c`, `p.zero = z`,
+`hash(p)`; in particular every operator, call, `diff`, `integrate`, `copy`, `==` leaves all its operands
+as they were.  The caller's containers are changed by the caller only. -/
+theorem hist_frame (st : HState K) (op : HOp K) :
+    (∀ a, a < st.heap.length → target st op ≠ some a → (hstep st op).heap[a]? = st.heap[a]?) ∧
+    (∀ i, i < st.pool.length → (hstep st op).pool[i]? = st.pool[i]?) ∧
+    ((∀ s k c, op ≠ .srcSet s k c) → (hstep st op).srcs = st.srcs) :=
+  ⟨fun _ ha ht => heap_frame st op ha ht, fun _ hi => pool_frame st op hi, srcs_frame st op⟩
+
+/-- **C07.8h** a step that raises changes nothing; item assignment and the `zero` setter raise TypeError
+on a hashed object. -/
+theorem hist_failed_step {st : HState K} {op : HOp K} {e : PyErr} (h : act st op = .fail e) :
+    hstep st op = st := fail_changes_nothing h
+
+theorem hist_hashed_refuses {st : HState K} {i a : ℕ} {o : Obj K} (ho : st.obj i = some (a, o))
+    (hh : o.hashed = true) (k : ℤ) (c : K) :
+    act st (.setitem i k c) = .fail .type ∧ act st (.setzero i) = .fail .type :=
+  setitem_hashed_fails ho hh k c
+
+/-- **C07.8i** once hashed, an object never changes again, whatever the rest of the history does — so the
+hash it gave stays the hash of its contents (`eq_hash` keeps holding at every later moment). -/
+theorem hist_hashed_immutable (st : HState K) (ops : List (HOp K)) {a : ℕ} {o : Obj K}
+    (ho : st.heap[a]? = some o) (hh : o.hashed = true) :
+    (hrun st ops).heap[a]? = some { data := o.data, hashed := true } := hashed_frame_hrun st ops ho hh
+
+/-- **C07.8j** "p ** n is the n-fold product" at every moment of a history: the power of a variable is
+the n-th power (in `K[T;T⁻¹]`) of the contents the variable has NOW — be the result a new object or, for
+`n = 1`, the object itself. -/
+theorem hist_pow_current {st : HState K} {i a : ℕ} {o : Obj K} (ho : st.obj i = some (a, o)) (n : ℕ) :
+    ∃ q, (act st (.pow i (n : ℤ) false) = .alloc q ∨ (act st (.pow i (n : ℤ) false) = .alias a ∧ q = o.data)) ∧
+      toLaurent q = toLaurent o.data ^ n := by
+  by_cases hs : powIsSelf o.data (n : ℤ) = true
+  · refine ⟨o.data, Or.inr ⟨by simp [act, ho, hs], rfl⟩, ?_⟩
+    simp only [powIsSelf, Bool.and_eq_true, decide_eq_true_eq] at hs
+    have : n = 1 := by omega
+    subst this
+    simp
+  · exact ⟨pow o.data (n : ℤ), Or.inl (by simp [act, ho, hs]), toLaurent_pow _ n⟩
+
 /-! ## non-vacuity: every hypothesis used above is satisfiable on a non-trivial input -/
 
 section Examples
@@ -452,6 +565,23 @@ example : lagrangePoly [((1 : ℚ), 5), (2, 7), (4, 1 / 3)] = .ok [(2, -16 / 9),
 example : divPoly p0 [(1, 2)] = .ok [(-2, 1 / 4), (1, 3 / 2)] := by decide +kernel
 example : hashKey (add p0 q0) = hashKey (add q0 p0) := (eq_hash (wf_add _ _) (wf_add _ _)).1 (add_comm wp wq)
 example : sortAsc (mul p0 q0) = sMul p0 q0 := mul_eq_spec p0 q0
+
+-- histories: `p ** 2`, then `p[0] = -4`, then `p ** 2` again is the square of the NEW p; the first result is untouched
+example : ((hrun (HState.init [p0] []) [.pow 0 2 false, .setitem 0 0 (-4), .pow 0 2 false]).heap.map (·.data)) =
+    [[(-1, 1 / 2), (2, 3), (0, -4)], [(-2, 1 / 4), (1, 3), (4, 9)],
+     [(-2, 1 / 4), (1, 3), (-1, -4), (4, 9), (2, -24), (0, 16)]] := by decide +kernel
+-- `a = q ** 3; a[5] = 7; q ** 3`: the second cube is a new object with the right value
+example : ((hrun (HState.init [q0] []) [.pow 0 3 false, .setitem 1 5 7, .pow 0 3 false]).heap.map (·.data)) =
+    [[(0, 1), (1, -1)], [(0, 1), (1, -3), (2, 3), (3, -1), (5, 7)], [(0, 1), (1, -3), (2, 3), (3, -1)]] := by
+  decide +kernel
+-- `q ** 1` is `q` itself: the new variable has the address of the old one
+example : (hrun (HState.init [q0] []) [.pow 0 1 false]).pool = [0, 0] := by decide +kernel
+-- assigning zero removes the term; a hashed object refuses item assignment and stays as it is
+example : ((hrun (HState.init [q0] []) [.setitem 0 1 0, .hash 0, .setitem 0 3 5]).heap) =
+    [{ data := [(0, 1)], hashed := true }] := by decide +kernel
+example : HWF (hrun (HState.init [p0, q0] []) [.bin .mul 0 1, .setitem 2 0 0, .comp 1 2]) :=
+  (hist_wf (by intro p hp; simp at hp; rcases hp with rfl | rfl; exacts [wp, wq]) [] _).1
+example : act (HState.init [p0, q0] ([] : List (List (Int × ℚ)))) (.bin .mul 0 1) = .alloc (mul p0 q0) := rfl
 
 end Examples
 
